@@ -12,6 +12,7 @@ import (
 	"os"
 	"runtime/debug"
 	"strconv"
+	"strings"
 	"sync"
 	"sync/atomic"
 )
@@ -65,6 +66,24 @@ func ReadNDJSON(path string) ([]M, error) {
 		out = append(out, m)
 	}
 	return out, sc.Err()
+}
+
+// ReadNDJSONString parses JSON objects from a string, one per line.
+func ReadNDJSONString(s string) ([]M, error) {
+	var out []M
+	for _, line := range strings.Split(s, "\n") {
+		if strings.TrimSpace(line) == "" {
+			continue
+		}
+		var m M
+		dec := json.NewDecoder(strings.NewReader(line))
+		dec.UseNumber()
+		if err := dec.Decode(&m); err != nil {
+			return nil, err
+		}
+		out = append(out, m)
+	}
+	return out, nil
 }
 
 // Writer appends JSON lines to a file; safe for concurrent use; Seq is assigned at emission.
